@@ -310,6 +310,12 @@ func (c *compiler) compileType(y *Type, parent Leafable, isUnion bool) error {
 		if y.path == "" {
 			return fmt.Errorf("%s - %s path is required", SchemaPath(parent), y.ident)
 		}
+		if _, inTypedef := parent.(*Typedef); inTypedef {
+			// RFC 7950 9.9.2: the path written in a typedef is followed from the leaf
+			// that uses the typedef, there is nothing to follow it from here
+			y.delegate = y
+			return nil
+		}
 		// parent is a leaf, so start with parent's parent which is a container-ish
 		resolvedMeta := Find(parent, y.path)
 		if resolvedMeta == nil {
